@@ -110,6 +110,16 @@ Definition tres_neg (b : bool) (x : tres) : tres :=
 
 Definition bks_valid (bks : Z) : bool := Z.eqb bks 1 || Z.eqb bks (-1).
 
+(* list(upper) == list(lower) *)
+Fixpoint lidx_eqb (a b : list index) : bool :=
+  match a, b with
+  | [], [] => true
+  | x :: a', y :: b' => index_eqb x y && lidx_eqb a' b'
+  | _, _ => false
+  end.
+(* elif bra_ket_sym is S.NegativeOne and list(upper) == list(lower): return S.Zero *)
+Definition diag_zero (bks : Z) (u l : list index) : bool := Z.eqb bks (-1) && lidx_eqb u l.
+
 (* AntiSymmetricTensor.__new__ (also Amplitude, which inherits it) *)
 Definition mk_anti (k : kind) (name : string) (bks : Z) (upper lower : list index) : tres :=
   match bubble upper with
@@ -126,11 +136,13 @@ Definition mk_anti (k : kind) (name : string) (bks : Z) (upper lower : list inde
       else if need_bra_ket_swap u l
            then let sign_u' := if Z.eqb bks (-1) then sign_u + 1 else sign_u in
                 TOk (Nat.odd (sign_u' + sign_l)) (Tens k name bks l u)
+           else if diag_zero bks u l then TZero
            else TOk (Nat.odd (sign_u + sign_l)) (Tens k name bks u l)
     end
   end.
 
-(* SymmetricTensor.__new__ : sorted(...) without sign, no Pauli zero *)
+(* SymmetricTensor.__new__ : sorted(...) without sign, no Pauli zero; zero
+   only for a bra-ket antisymmetric tensor with identical bra and ket *)
 Definition mk_sym (k : kind) (name : string) (bks : Z) (upper lower : list index) : tres :=
   let u := ksort idx_key upper in
   let l := ksort idx_key lower in
@@ -138,6 +150,7 @@ Definition mk_sym (k : kind) (name : string) (bks : Z) (upper lower : list index
   else if negb (bks_valid bks) then TErr
   else if negb (Nat.eqb (List.length u) (List.length l)) then TErr
   else if need_bra_ket_swap u l then TOk (Z.eqb bks (-1)) (Tens k name bks l u)
+  else if diag_zero bks u l then TZero
   else TOk false (Tens k name bks u l).
 
 (* cls(name, upper, lower, bra_ket_sym) for the three symmetric classes;
@@ -228,8 +241,10 @@ Definition tres_bind (x : tres) (f : tens -> tres) : tres :=
   match x with TOk s t => tres_neg s (f t) | y => y end.
 
 (* what Expr(e, real=, sym_tensors=, antisym_tensors=) does to one tensor
-   (fock = "f", eri = "V") *)
+   (fock = "f", eri = "V"): the declared bra-ket symmetry, then (real) the
+   renaming of complex-conjugate amplitudes, then the declared symmetry once
+   more (Expr.make_real ends with _apply_tensor_braket_sym) *)
 Definition assume_obj (real : bool) (syms antis : list string) (t : tens) : tres :=
   let syms' := if real then "f"%string :: "V"%string :: syms else syms in
   let x := apply_braket_obj syms' antis t in
-  if real then tres_bind x make_real_obj else x.
+  if real then tres_bind (tres_bind x make_real_obj) (apply_braket_obj syms' antis) else x.
